@@ -205,6 +205,179 @@ let suite_fblock (line : string) : string =
                  (if own = "" then "-" else String.make (String.length own) '1')))
   | _ -> failwith "bad fblock case"
 
+(* ---------- entries, keys, cursor ops ---------- *)
+let n_of_string (s : string) : n =
+  (* decimal, up to u64 *)
+  let r = ref N0 in
+  String.iter
+    (fun c ->
+      r := N.add (N.mul !r (n_of_int 10)) (n_of_int (Char.code c - 48)))
+    s;
+  !r
+
+let rec string_of_n (x : n) : string =
+  (* decimal printing of possibly > 2^62 numbers *)
+  match x with
+  | N0 -> "0"
+  | _ ->
+      let ten = n_of_int 10 in
+      let q = N.div x ten and r = N.modulo x ten in
+      (if q = N0 then "" else string_of_n q) ^ string_of_int (int_of_n r)
+
+let parse_entry (tok : string) : ikey * n list =
+  match String.split_on_char ':' tok with
+  | u :: s :: o :: rest ->
+      ( { ik_user = parse_bytes u; ik_seq = n_of_string s; ik_op = n_of_int (int_of_string o) },
+        match rest with [] -> [] | v :: _ -> parse_bytes v )
+  | _ -> failwith ("bad entry " ^ tok)
+
+let show_key (k : ikey) : string =
+  Printf.sprintf "x%s:%s:%d" (hex_of_bytes k.ik_user) (string_of_n k.ik_seq) (int_of_n k.ik_op)
+
+let show_entry ((k, v) : ikey * n list) : string = show_key k ^ ":x" ^ hex_of_bytes v
+
+let show_entries es = if es = [] then "-" else String.concat "," (List.map show_entry es)
+
+let parse_cop (tok : string) : cop =
+  match tok.[0] with
+  | 'f' -> CFirst
+  | 'l' -> CLast
+  | 'n' -> CNext
+  | 'p' -> CPrev
+  | 's' -> CSeek (fst (parse_entry (String.sub tok 1 (String.length tok - 1))))
+  | _ -> failwith "bad cop"
+
+let show_trace (l : (ikey * n list) option list) : string =
+  if l = [] then "-"
+  else String.concat "," (List.map (function None -> "inv" | Some e -> show_entry e) l)
+
+let show_cmp = function Lt -> "-1" | Eq -> "0" | Gt -> "1"
+
+(* ---------- suite: key ---------- *)
+let suite_key (line : string) : string =
+  match split_nonempty ' ' line with
+  | [ id; a; b ] ->
+      let ka, _ = parse_entry a and kb, _ = parse_entry b in
+      let enc = ikey_encode ka in
+      let parsed = match ikey_decode enc with Some k -> show_key k | None -> "none" in
+      let bad = List.rev (n_of_int 2 :: List.tl (List.rev enc)) in
+      let pb = match ikey_decode bad with Some _ -> 1 | None -> 0 in
+      let ps = match ikey_decode (take 8 enc) with Some _ -> 1 | None -> 0 in
+      let so = function Some s -> "x" ^ hex_of_bytes s | None -> "panic" in
+      Printf.sprintf "%s %s %d x%s %s %d%d %s %s x%s x%s | none" id
+        (show_cmp (ikey_cmp ka kb))
+        (if ikey_eqb ka kb then 1 else 0)
+        (hex_of_bytes enc) parsed pb ps
+        (so (ikey_separator ka kb))
+        (so (ikey_successor ka))
+        (hex_of_bytes (bytes_separator ka.ik_user kb.ik_user))
+        (hex_of_bytes (bytes_successor ka.ik_user))
+  | _ -> failwith "bad key case"
+
+(* ---------- suite: block ---------- *)
+let bi_step es i = function
+  | CSeek k -> Some (bi_seek es i k)
+  | CFirst -> Some (bi_seek_first i)
+  | CLast -> bi_seek_last es i
+  | CNext -> Some (bi_next es i)
+  | CPrev -> Some (bi_prev es i)
+
+let suite_block (line : string) : string =
+  match split_nonempty ' ' line with
+  | id :: ri :: toks ->
+      let ri = n_of_int (int_of_string ri) in
+      let es = ref [] and ops = ref [] in
+      List.iter
+        (fun t ->
+          let body = String.sub t 1 (String.length t - 1) in
+          match t.[0] with
+          | 'E' -> es := parse_entry body :: !es
+          | 'O' -> ops := parse_cop body :: !ops
+          | _ -> failwith "bad token")
+        toks;
+      let es = List.rev !es and ops = List.rev !ops in
+      let raw = block_encode ri es in
+      let size =
+        int_of_n
+          (bb_approx_size
+             (List.fold_left (fun b (k, v) -> bb_add ri b (ikey_encode k) v) bb_new es))
+      in
+      (match block_decode raw with
+       | DErr -> Printf.sprintf "%s x%s %d read-error | none" id (hex_of_bytes raw) size
+       | DPanic -> Printf.sprintf "%s x%s %d read-panic | none" id (hex_of_bytes raw) size
+       | DOk des ->
+           (* BlockIter script *)
+           let rec run i ops =
+             match ops with
+             | [] -> []
+             | o :: r -> (
+                 match bi_step des i o with
+                 | None -> [ "panic" ]
+                 | Some i' ->
+                     (match bi_current des i' with None -> "inv" | Some e -> show_entry e)
+                     :: run i' r)
+           in
+           let tr = run O ops in
+           let spec_tr = show_trace (lc_run es (lc_first es) ops) in
+           Printf.sprintf "%s x%s %d %s %s | %s %s" id (hex_of_bytes raw) size (show_entries des)
+             (if tr = [] then "-" else String.concat "," tr)
+             (show_entries es) spec_tr)
+  | _ -> failwith "bad block case"
+
+(* ---------- suite: table ---------- *)
+let show_get = function
+  | GFound v -> "Fx" ^ hex_of_bytes v
+  | GDeleted -> "D"
+  | GNotFound -> "N"
+
+let suite_table (line : string) : string =
+  match split_nonempty ' ' line with
+  | id :: bs :: toks ->
+      let bs, d3 =
+        match String.split_on_char ':' bs with
+        | [ b; d ] -> (n_of_int (int_of_string b), d = "1")
+        | [ b ] -> (n_of_int (int_of_string b), true)
+        | _ -> failwith "bad block size"
+      in
+      let es = ref [] and ops = ref [] and gets = ref [] in
+      List.iter
+        (fun t ->
+          let body = String.sub t 1 (String.length t - 1) in
+          match t.[0] with
+          | 'E' -> es := parse_entry body :: !es
+          | 'O' -> ops := parse_cop body :: !ops
+          | 'G' -> gets := fst (parse_entry body) :: !gets
+          | _ -> failwith "bad token")
+        toks;
+      let es = List.rev !es and ops = List.rev !ops and gets = List.rev !gets in
+      (match table_build_bs bs es with
+       | None -> Printf.sprintf "%s build-panic | none" id
+       | Some t ->
+           let lay =
+             if t.t_index = [] then "-"
+             else
+               String.concat ","
+                 (List.map2
+                    (fun (k, _) b ->
+                      Printf.sprintf "x%s/%d" (hex_of_bytes (ikey_encode k)) (List.length b))
+                    t.t_index t.t_blocks)
+           in
+           let g k = { ik_user = k.ik_user; ik_seq = k.ik_seq; ik_op = n_of_int 1 } in
+           let gres =
+             if gets = [] then "-"
+             else String.concat "," (List.map (fun k -> show_get (table_get d3 (fun _ _ -> true) t (g k))) gets)
+           in
+           let gspec =
+             if gets = [] then "-"
+             else String.concat "," (List.map (fun k -> show_get (get_spec es (g k))) gets)
+           in
+           let tr, ok = tl_run t tl_new ops in
+           let script = if not ok then "panic" else show_trace tr in
+           let spec_script = show_trace (lc_run es None ops) in
+           let filt = if es = [] then "-" else String.make (List.length es) '1' in
+           Printf.sprintf "%s %s 1 %s %s %s | 1 %s %s %s" id lay gres script filt gspec spec_script filt)
+  | _ -> failwith "bad table case"
+
 let () =
   let suite = Sys.argv.(1) in
   let f =
@@ -213,6 +386,9 @@ let () =
     | "crcmask" -> suite_crcmask
     | "bloom" -> suite_bloom
     | "fblock" -> suite_fblock
+    | "key" -> suite_key
+    | "block" -> suite_block
+    | "table" -> suite_table
     | _ -> failwith ("unknown suite " ^ suite)
   in
   try
